@@ -459,10 +459,30 @@ Proof.
     split; reflexivity.
 Qed.
 
+(* ---- layer (c''): request objects ---- *)
+Lemma ro_handler_total r : ro_handler true r = HRefused \/ ro_handler true r = HAccepted.
+Proof.
+  destruct r as [e po su pa c1 c2 c3 c4 sg]. unfold ro_handler, ro_checks. cbn.
+  destruct su, pa, c1, c2, c3, c4, sg; cbn; auto.
+Qed.
+
+Lemma ro_accept_iff r :
+  ro_handler true r = HAccepted <->
+  ro_supported r && ro_parses r && ro_cid_ok r && ro_rt_ok r && ro_iss_ok r && ro_aud_ok r && ro_sig_ok r = true.
+Proof.
+  destruct r as [e po su pa c1 c2 c3 c4 sg]. unfold ro_handler, ro_checks. cbn.
+  destruct su, pa, c1, c2, c3, c4, sg; cbn; split; intro H; try reflexivity; discriminate.
+Qed.
+
+Lemma ro_typed_nil_panics :
+  ro_handler false {| ro_entry := ViaProvider; ro_post := false; ro_supported := true; ro_parses := true; ro_cid_ok := true;
+                      ro_rt_ok := true; ro_iss_ok := true; ro_aud_ok := true; ro_sig_ok := false |} = HPanic.
+Proof. reflexivity. Qed.
+
 (* ---- central theorem ---- *)
 Lemma spec_model i : spec i (model i) = true.
 Proof.
-  destruct i as [d m j t|k tok t|s|x|hc he hh|cx|be bh bo|au|e c q|h a e t|dev tok t|o|n amount dash]; cbn.
+  destruct i as [d m j t|k tok t|s|x|hc he hh|cx|be bh bo|au|ro|e c q|h a e t|dev tok t|o|n amount dash]; cbn.
   - pose proof (decode_total t d j) as H. destruct (decode t d j); try reflexivity. now elim H.
   - pose proof (verify_total (time_of t) (lang_of t) k tok) as H.
     destruct (verify _ _ true true k tok); try reflexivity. now elim H.
@@ -472,6 +492,7 @@ Proof.
   - apply chandler_single.
   - apply bearer_userinfo_single.
   - apply ahandler_single.
+  - destruct (ro_handler_total ro) as [H|H]; rewrite H; reflexivity.
   - reflexivity.
   - pose proof (call_total (time_of t) (lang_of t) h a e) as H.
     pose proof (call_ok_well_formed (time_of t) (lang_of t) h a e) as W.
